@@ -49,6 +49,17 @@ def gen(rng, tier):
                 "readdirs 0 %s %s %s x636f6e66 x3d x23" % (enc(d), enc(b"/nowhere"), enc(name)), "getall 0", "path 0"]
         s = Scenario(cmds, tags=("names",)); s.field, s.n = "names", n
         out.append(s)
+    # masking between layers with drop-in names of NAME_MAX-1 and NAME_MAX bytes: the lower layer's file must be ignored
+    for n in (254, 255):
+        dn = b"m" * (n - 5) + b".conf"
+        cmds = ["fsdir %s 0 0" % enc(b"/u/ex.conf.d"), "fsdir %s 0 0" % enc(b"/e/ex.conf.d"),
+                "fsfile %s %s 0 0" % (enc(b"/u/ex.conf"), enc(b"BASE=main\n")),
+                "fsfile %s %s 0 0" % (enc(b"/u/ex.conf.d/" + dn), enc(b"A=vendor\nONLY_VENDOR=1\n")),
+                "fsfile %s %s 0 0" % (enc(b"/e/ex.conf.d/" + dn), enc(b"A=etc\n")),
+                "readdirs 0 %s %s %s x636f6e66 x3d x23" % (enc(b"/u"), enc(b"/e"), enc(b"ex")), "getall 0",
+                "history %s %s %s x636f6e66 x3d x23" % (enc(b"/u"), enc(b"/e"), enc(b"ex"))]
+        s = Scenario(cmds, tags=("names-masking",)); s.field, s.n = "names-masking", n
+        out.append(s)
     # the main file of a layered read at the longest names the system accepts: the REAL path of the /etc-side file is
     # PATH_MAX-1 (4095), just below, and far below; the vendor side holds a file of the same name that must lose
     rl = vlib.root_len()
@@ -87,6 +98,8 @@ def oracle(s, ilines):
             longest = max((len(t) for t in l.replace(";", " ").replace(",", " ").replace("=", " ").split()), default=0)
             if field in ("comment-before", "comment-after") and idx == 5: continue   # merge keeps comments too, checked via model
             if longest < 2 * n: return "%s of %d bytes came back shorter through `%s`: longest token %d bytes" % (field, n, s.cmds[idx], longest // 2)
+    if field == "names-masking":
+        if enc(b"ONLY_VENDOR")[1:] in ilines[6]: return "a %d-byte drop-in name no longer masks the same name of the lower layer: %s" % (n, ilines[6][:200])
     if field == "pathmax":
         if "x4b4559" not in ilines[3] or enc(b"etc") [1:] not in ilines[3]: return "main file with a real path of %d bytes not used by econf_readDirs: %s" % (n, ilines[3][:200])
     if field == "setter":
